@@ -16,13 +16,15 @@ structure CSt where
   ntok : Nat := 0                          -- lock tokens handed out so far
   parts : List ((Bytes × Key) × Nat) := []  -- partition id of every key seen (read from the running cluster)
   ecfg : EvCfg := {}                       -- eviction settings of every DMap ...
-  cdm : Bytes := []                        -- ... except this one, which has its own idle window
-  cidle : Int := 0
+  cdm : Bytes := []                        -- ... except this one, which has its own settings
+  cecfg : EvCfg := {}
+  cttl : Int := 0                          -- and its own default TTL
   la : List ((Bytes × Key) × Int) := []    -- last access of the owner's primary entries
 
 def CSt.route (s : CSt) (dm : Bytes) (k : Key) : Route := (s.routes.lookup (dm, k)).getD ⟨[0], []⟩
 def CSt.reach (s : CSt) : Reach := fun m => !(s.unreachable.contains m)
-def CSt.ecfgOf (s : CSt) (dm : Bytes) : EvCfg := if s.cdm != [] && dm == s.cdm then { s.ecfg with idle := s.cidle } else s.ecfg
+def CSt.ecfgOf (s : CSt) (dm : Bytes) : EvCfg := if s.cdm != [] && dm == s.cdm then s.cecfg else s.ecfg
+def CSt.cfgOf (s : CSt) (dm : Bytes) : Cfg := if s.cdm != [] && dm == s.cdm then { s.cfg with dmTTL := s.cttl } else s.cfg
 /-- the keys seen so far that hash to the partition of (dm, k) -/
 def CSt.univ (s : CSt) (dm : Bytes) (k : Key) : List Key :=
   match s.parts.lookup (dm, k) with
@@ -88,7 +90,7 @@ def evictAll (s : CSt) (now : Int) : List Bytes → Cluster → Cluster × Nat
   | [], c => (c, 0)
   | dm :: rest, c =>
     let keys := (s.parts.filter (fun e => e.1.1 == dm)).map (·.1.2)
-    let (c1, n1) := DMap.evScan (s.ecfgOf dm) s.cfg (fun k => s.route dm k) s.laFun dm now c keys
+    let (c1, n1) := DMap.evScan (s.ecfgOf dm) (s.cfgOf dm) (fun k => s.route dm k) s.laFun dm now c keys
     let (c2, n2) := evictAll s now rest c1
     (c2, n1 + n2)
 
@@ -106,8 +108,12 @@ def clusterStep (s : CSt) (now : Int) (op : String) (a : List String) : Option (
     let cdm := match a.find? (fun x => x.startsWith "cdm=") with
       | some x => ((x.drop 4).toString).toUTF8.toList
       | none => []
+    let cls := optNat a "clrusamples" ls
+    let cecfg : EvCfg := { lru := optNat a "clru" (optNat a "lru" 0) == 1, maxKeys := optNat a "cmaxkeys" (optNat a "maxkeys" 0),
+                           maxInuse := optNat a "cmaxinuse" (optNat a "maxinuse" 0),
+                           lruSamples := if cls == 0 then 5 else cls, idle := (optNat a "cidle_ms" 0 : Nat) * 1000000 }
     some ({ n := n, cfg := cfg, cl := Cluster.empty, routes := [], unreachable := [], mcq := 1,
-            ecfg := ecfg, cdm := cdm, cidle := (optNat a "cidle_ms" 0 : Nat) * 1000000 }, s!"ok n={n}")
+            ecfg := ecfg, cdm := cdm, cecfg := cecfg, cttl := (optNat a "cttl_ms" (optNat a "ttl_ms" 0) : Nat) * 1000000 }, s!"ok n={n}")
   | "rt.fill" =>
     some (s, s!"in={arg 0} out={routingFill s.cfg.R (arg 0)}")
   | "c.mcq" => some ({ s with mcq := nat (arg 0) }, "ok")
@@ -127,7 +133,7 @@ def clusterStep (s : CSt) (now : Int) (op : String) (a : List String) : Option (
     let dm := (arg 2).toUTF8.toList
     let k := unhx (arg 3)
     let pc := parsePutCfg (a.drop 5) {}
-    let (cl', res) := DMap.put s.cfg (s.route dm k) s.reach s.cl dm k (unhx (arg 4)) pc now
+    let (cl', res) := DMap.put (s.cfgOf dm) (s.route dm k) s.reach s.cl dm k (unhx (arg 4)) pc now
     let s := if res == .ok then s.touch dm k now else s
     some ({ s with cl := cl' }, fmtDRes res)
   | "c.putv" =>
@@ -139,7 +145,7 @@ def clusterStep (s : CSt) (now : Int) (op : String) (a : List String) : Option (
     let vs := a.getD (a.length - 2) "-"
     let victims := if vs == "-" then [] else (vs.splitOn ",").map unhx
     let pc := parsePutCfg ((a.drop 5).take (a.length - 7)) {}
-    match DMap.lruPut (s.ecfgOf dm) owned s.cfg (s.route dm k) s.reach s.cl dm (s.univ dm k) k (unhx (arg 4)) pc now victims with
+    match DMap.lruPut (s.ecfgOf dm) owned (s.cfgOf dm) (s.route dm k) s.reach s.cl dm (s.univ dm k) k (unhx (arg 4)) pc now victims with
     | none => some (s, s!"impossible-eviction pick={vs} owned={owned}")
     | some (cl', res) =>
       let s := if res == .ok then s.touch dm k now else s
@@ -153,13 +159,13 @@ def clusterStep (s : CSt) (now : Int) (op : String) (a : List String) : Option (
   | "c.get" =>
     let dm := (arg 2).toUTF8.toList
     let k := unhx (arg 3)
-    let (cl', res) := DMap.get s.cfg (s.route dm k) s.reach s.cl dm k now
+    let (cl', res) := DMap.get (s.cfgOf dm) (s.route dm k) s.reach s.cl dm k now
     let s := if (s.cl.copy (s.route dm k).owner .prim dm k).isSome then s.touch dm k now else s
     some ({ s with cl := cl' }, fmtDRes res)
   | "c.getx" =>
     let dm := (arg 2).toUTF8.toList
     let k := unhx (arg 3)
-    let (cl', res) := DMap.get s.cfg (s.route dm k) s.reach s.cl dm k now
+    let (cl', res) := DMap.get (s.cfgOf dm) (s.route dm k) s.reach s.cl dm k now
     let s := if (s.cl.copy (s.route dm k).owner .prim dm k).isSome then s.touch dm k now else s
     some ({ s with cl := cl' }, match res with
       | .val c => s!"{hx c.val} ttl={c.ttl} ts={c.ts}"
@@ -167,34 +173,34 @@ def clusterStep (s : CSt) (now : Int) (op : String) (a : List String) : Option (
   | "c.del" =>
     let dm := (arg 2).toUTF8.toList
     let keys := (a.drop 3).map unhx
-    let cl' := keys.foldl (fun c k => DMap.del s.cfg (s.route dm k) c dm k) s.cl
+    let cl' := keys.foldl (fun c k => DMap.del (s.cfgOf dm) (s.route dm k) c dm k) s.cl
     some ({ s with cl := cl' }, toString keys.length)
   | "c.expire" =>
     let dm := (arg 2).toUTF8.toList
     let k := unhx (arg 3)
-    let (cl', res) := DMap.expire s.cfg (s.route dm k) s.reach s.cl dm k (int (arg 4) * 1000000) now
+    let (cl', res) := DMap.expire (s.cfgOf dm) (s.route dm k) s.reach s.cl dm k (int (arg 4) * 1000000) now
     some ({ s with cl := cl' }, fmtDRes res)
   | "c.getput" =>
     let dm := (arg 2).toUTF8.toList
     let k := unhx (arg 3)
-    let (cl', res, old) := DMap.getPut s.cfg (s.route dm k) s.reach s.cl dm k (unhx (arg 4)) now
+    let (cl', res, old) := DMap.getPut (s.cfgOf dm) (s.route dm k) s.reach s.cl dm k (unhx (arg 4)) now
     some ({ s with cl := cl' }, match res with
       | .ok => (match old with | some x => hx x.val | none => "none")
       | r => fmtDRes r)
   | "c.incr" =>
     let dm := (arg 2).toUTF8.toList
     let k := unhx (arg 3)
-    let (cl', res) := DMap.incr s.cfg (s.route dm k) s.reach s.cl dm k (int (arg 4)) now
+    let (cl', res) := DMap.incr (s.cfgOf dm) (s.route dm k) s.reach s.cl dm k (int (arg 4)) now
     some ({ s with cl := cl' }, match res with | some n => toString n | none => "err")
   | "c.decr" =>
     let dm := (arg 2).toUTF8.toList
     let k := unhx (arg 3)
-    let (cl', res) := DMap.incr s.cfg (s.route dm k) s.reach s.cl dm k (-(int (arg 4))) now
+    let (cl', res) := DMap.incr (s.cfgOf dm) (s.route dm k) s.reach s.cl dm k (-(int (arg 4))) now
     some ({ s with cl := cl' }, match res with | some n => toString n | none => "err")
   | "c.lock" =>
     let dm := (arg 2).toUTF8.toList
     let k := unhx (arg 3)
-    let (cl', res) := DMap.lock s.cfg (s.route dm k) s.reach s.cl dm k (tokBytes s.ntok) (int (arg 4) * 1000000) now
+    let (cl', res) := DMap.lock (s.cfgOf dm) (s.route dm k) s.reach s.cl dm k (tokBytes s.ntok) (int (arg 4) * 1000000) now
     match res with
     | .acquired => some ({ s with cl := cl', ntok := s.ntok + 1 }, s!"tok{s.ntok}")
     | r => some ({ s with cl := cl' }, fmtLock r)
@@ -206,11 +212,11 @@ def clusterStep (s : CSt) (now : Int) (op : String) (a : List String) : Option (
     let r := s.route dm k
     let run := fun (c : Cluster) (o : String) (x : String) =>
       match o with
-      | "incr" => let (c', res) := DMap.incr s.cfg r s.reach c dm k (int x) now
+      | "incr" => let (c', res) := DMap.incr (s.cfgOf dm) r s.reach c dm k (int x) now
                   (c', match res with | some n => toString n | none => "err")
-      | "decr" => let (c', res) := DMap.incr s.cfg r s.reach c dm k (-(int x)) now
+      | "decr" => let (c', res) := DMap.incr (s.cfgOf dm) r s.reach c dm k (-(int x)) now
                   (c', match res with | some n => toString n | none => "err")
-      | _ => let (c', res, old) := DMap.getPut s.cfg r s.reach c dm k (unhx x) now
+      | _ => let (c', res, old) := DMap.getPut (s.cfgOf dm) r s.reach c dm k (unhx x) now
              (c', match res with | .ok => (match old with | some y => hx y.val | none => "none") | e => fmtDRes e)
     let (c1, r1) := run s.cl (arg 4) (arg 5)
     let (c2, r2) := run c1 (arg 9) (arg 10)
@@ -220,11 +226,11 @@ def clusterStep (s : CSt) (now : Int) (op : String) (a : List String) : Option (
     let dm := (arg 2).toUTF8.toList
     let k := unhx (arg 3)
     let tmo := int (arg 4) * 1000000
-    let (cl1, res1) := DMap.lock s.cfg (s.route dm k) s.reach s.cl dm k (tokBytes s.ntok) tmo now
+    let (cl1, res1) := DMap.lock (s.cfgOf dm) (s.route dm k) s.reach s.cl dm k (tokBytes s.ntok) tmo now
     match res1 with
     | .acquired => some ({ s with cl := cl1, ntok := s.ntok + 1 }, s!"tok{s.ntok}")
     | .notAcquired =>
-      let (cl2, res2) := DMap.lock s.cfg (s.route dm k) s.reach cl1 dm k (tokBytes s.ntok) tmo (now + int (arg 6) * 1000000)
+      let (cl2, res2) := DMap.lock (s.cfgOf dm) (s.route dm k) s.reach cl1 dm k (tokBytes s.ntok) tmo (now + int (arg 6) * 1000000)
       (match res2 with
        | .acquired => some ({ s with cl := cl2, ntok := s.ntok + 1 }, s!"tok{s.ntok}")
        | r => some ({ s with cl := cl2 }, fmtLock r))
@@ -233,13 +239,13 @@ def clusterStep (s : CSt) (now : Int) (op : String) (a : List String) : Option (
     let dm := (arg 2).toUTF8.toList
     let k := unhx (arg 3)
     let tok := if arg 4 == "forged" then "forged".toUTF8.toList else (arg 4).toUTF8.toList
-    let (cl', res) := DMap.unlock s.cfg (s.route dm k) s.reach s.cl dm k tok now
+    let (cl', res) := DMap.unlock (s.cfgOf dm) (s.route dm k) s.reach s.cl dm k tok now
     some ({ s with cl := cl' }, fmtLock res)
   | "c.lease" =>
     let dm := (arg 2).toUTF8.toList
     let k := unhx (arg 3)
     let tok := if arg 4 == "forged" then "forged".toUTF8.toList else (arg 4).toUTF8.toList
-    let (cl', res) := DMap.lease s.cfg (s.route dm k) s.reach s.cl dm k tok (int (arg 5) * 1000000) now
+    let (cl', res) := DMap.lease (s.cfgOf dm) (s.route dm k) s.reach s.cl dm k tok (int (arg 5) * 1000000) now
     some ({ s with cl := cl' }, fmtLock res)
   | "c.unlockx" | "c.leasex" =>
     -- <path> <i> <dmap> <key> <tok> [<ms>] -- <adv_ms> <path2> <i2> <timeout2_ms>: the second half runs after the
@@ -250,18 +256,18 @@ def clusterStep (s : CSt) (now : Int) (op : String) (a : List String) : Option (
     let isLease := op == "c.leasex"
     let rest := (a.dropWhile (· != "--")).drop 1
     let r := s.route dm k
-    let (c1, chk) := if isLease then DMap.leaseChk s.cfg r s.reach s.cl dm k tok now
-                     else DMap.unlockChk s.cfg r s.reach s.cl dm k tok now
+    let (c1, chk) := if isLease then DMap.leaseChk (s.cfgOf dm) r s.reach s.cl dm k tok now
+                     else DMap.unlockChk (s.cfgOf dm) r s.reach s.cl dm k tok now
     match chk with
     | some e => some ({ s with cl := c1 }, s!"{fmtLock e} inner=-")
     | none =>
       let now' := now + int (rest.getD 0 "0") * 1000000
-      let (c2, lres) := DMap.lock s.cfg r s.reach c1 dm k (tokBytes s.ntok) (int (rest.getD 3 "0") * 1000000) now'
+      let (c2, lres) := DMap.lock (s.cfgOf dm) r s.reach c1 dm k (tokBytes s.ntok) (int (rest.getD 3 "0") * 1000000) now'
       let (ntok', inner) := match lres with
         | .acquired => (s.ntok + 1, s!"tok{s.ntok}")
         | e => (s.ntok, fmtLock e)
-      let (c3, res) := if isLease then DMap.leaseFin s.cfg r s.reach c2 dm k tok (int (arg 5) * 1000000) now'
-                       else DMap.unlockFin s.cfg r c2 dm k tok now'
+      let (c3, res) := if isLease then DMap.leaseFin (s.cfgOf dm) r s.reach c2 dm k tok (int (arg 5) * 1000000) now'
+                       else DMap.unlockFin (s.cfgOf dm) r c2 dm k tok now'
       some ({ s with cl := c3, ntok := ntok' }, s!"{fmtLock res} inner={inner}")
   | "c.destroy" =>
     let dm := (arg 2).toUTF8.toList
@@ -275,17 +281,17 @@ def clusterStep (s : CSt) (now : Int) (op : String) (a : List String) : Option (
       let k := unhx (f.getD 1 "")
       let r := s.route dm k
       match f.getD 0 "" with
-      | "put" => let (c', res) := DMap.put s.cfg r s.reach acc.1 dm k (unhx (f.getD 2 "")) {} now; (c', acc.2 ++ [fmtDRes res])
-      | "get" => let (c', res) := DMap.get s.cfg r s.reach acc.1 dm k now; (c', acc.2 ++ [fmtDRes res])
+      | "put" => let (c', res) := DMap.put (s.cfgOf dm) r s.reach acc.1 dm k (unhx (f.getD 2 "")) {} now; (c', acc.2 ++ [fmtDRes res])
+      | "get" => let (c', res) := DMap.get (s.cfgOf dm) r s.reach acc.1 dm k now; (c', acc.2 ++ [fmtDRes res])
       | "getput" =>
-        let (c', res, old) := DMap.getPut s.cfg r s.reach acc.1 dm k (unhx (f.getD 2 "")) now
+        let (c', res, old) := DMap.getPut (s.cfgOf dm) r s.reach acc.1 dm k (unhx (f.getD 2 "")) now
         (c', acc.2 ++ [match res with | .ok => (match old with | some x => hx x.val | none => "none") | e => fmtDRes e])
-      | "del" => (DMap.del s.cfg r acc.1 dm k, acc.2 ++ ["1"])
-      | "incr" => let (c', res) := DMap.incr s.cfg r s.reach acc.1 dm k (int (f.getD 2 "")) now
+      | "del" => (DMap.del (s.cfgOf dm) r acc.1 dm k, acc.2 ++ ["1"])
+      | "incr" => let (c', res) := DMap.incr (s.cfgOf dm) r s.reach acc.1 dm k (int (f.getD 2 "")) now
                   (c', acc.2 ++ [match res with | some n => toString n | none => "err"])
-      | "decr" => let (c', res) := DMap.incr s.cfg r s.reach acc.1 dm k (-(int (f.getD 2 ""))) now
+      | "decr" => let (c', res) := DMap.incr (s.cfgOf dm) r s.reach acc.1 dm k (-(int (f.getD 2 ""))) now
                   (c', acc.2 ++ [match res with | some n => toString n | none => "err"])
-      | "expire" => let (c', res) := DMap.expire s.cfg r s.reach acc.1 dm k (int (f.getD 2 "") * 1000000) now
+      | "expire" => let (c', res) := DMap.expire (s.cfgOf dm) r s.reach acc.1 dm k (int (f.getD 2 "") * 1000000) now
                     (c', acc.2 ++ [fmtDRes res])
       | _ => (acc.1, acc.2 ++ ["bad-pipeline-cmd"])
     let (cl', outs) := (a.drop 3).foldl step (s.cl, [])
